@@ -500,6 +500,7 @@ func GenC11(r *detsim.Rand, tier string) *Plan {
 	}
 	genPoolCfg(r, &c, false)
 	c.PYields = r.Chance(1, 3)
+	c.PostYields = r.Chance(1, 2)
 	p.Cfg = c
 	if r.Chance(1, 5) {
 		p.Bystander = 6 + r.Intn(20)
